@@ -113,12 +113,18 @@ def rule_from_int(rep, db):
             continue
         seen.add((ta[0], vt))
         # enum size: constant folded in the comparison
+        # the enum's size: the constant `enum_::size<Enum>::value` the function refers to (wherever it is compared or named)
         size = None
-        for n in F.walk(fn.get("body")):
-            if n.get("k") == "binop" and n.get("op") == "<":
-                r = T.unwrap(u, n.get("r"))
-                if r is not None and "c" in r:
-                    size = int(r["c"])
+        sizes = {int(n["c"]) for n in F.walk(fn.get("body")) if n.get("k") == "ref" and n.get("dk") == "global" and "c" in n
+                 and str(n.get("qn", "")).startswith("std::integral_constant<") and str(n.get("qn", "")).endswith("::value")}
+        if len(sizes) == 1:
+            size = sizes.pop()
+        else:
+            for n in F.walk(fn.get("body")):
+                if n.get("k") == "binop" and n.get("op") == "<":
+                    r = T.unwrap(u, n.get("r"))
+                    if r is not None and "c" in r:
+                        size = int(r["c"])
         key = "from_int<%s>(%s)" % (ta[0].split("::")[-1], vt)
         if size is None:
             rep.fail("FI", key, F.primary_site(fn), F.describe(fn), why="no comparison of the value against the enum's size found")
@@ -282,35 +288,122 @@ def rule_g(rep, db, files):
                      detail={"dominating_conditions": b["facts"]})
 
 
+class _NoTable(Exception):
+    pass
+
+
+def _is_zero(t):
+    return t == ("k", "0") or (isinstance(t, tuple) and t and t[0] == "c" and t[1] == "fcppt::literal" and t[3] == (("k", "0"),)) \
+        or (isinstance(t, tuple) and t and t[0] == "cast" and _is_zero(t[2]))
+
+
+def _is_one(t):
+    return t == ("k", "1") or (isinstance(t, tuple) and t and t[0] == "c" and t[1] == "fcppt::literal" and t[3] == (("k", "1"),)) \
+        or (isinstance(t, tuple) and t and t[0] == "cast" and _is_one(t[2]))
+
+
+def _bool_eval(t, atom, assign):
+    """truth value of the boolean term t under `assign` ({atom name: 'is zero'}); atom(term) names the integer quantity a term
+    denotes (or None). Integer quantities enter only through their zero-ness: conversion to bool, == 0, != 0, 0 < q, q > 0
+    (unsigned). Anything else raises _NoTable (the caller reports analysis-broken, not a verdict)."""
+    if t in (("k", "1"), ("k", "true")):
+        return True
+    if t in (("k", "0"), ("k", "false")):
+        return False
+    if not isinstance(t, tuple) or not t:
+        raise _NoTable(str(t))
+    if t[0] == "u" and t[1] == "!":
+        return not _bool_eval(t[2], atom, assign)
+    if t[0] == "cast" and t[1] in ("bool", "_Bool"):
+        return _bool_eval(t[2], atom, assign)
+    if t[0] == "b" and t[1] in ("&&", "||"):
+        l = _bool_eval(t[2], atom, assign)
+        if t[1] == "&&":
+            return l and _bool_eval(t[3], atom, assign)
+        return l or _bool_eval(t[3], atom, assign)
+    if t[0] == "cond":
+        return _bool_eval(t[2] if _bool_eval(t[1], atom, assign) else t[3], atom, assign)
+    a = atom(t)
+    if a is not None:
+        return not assign[a]          # an integer in a boolean context: true iff non-zero
+    if t[0] == "b" and t[1] in ("==", "!=", "<", ">", "<=", ">="):
+        op, l, r = t[1], t[2], t[3]
+        if _is_zero(l) and atom(r) is not None:
+            op, l, r = {"<": ">", ">": "<", "<=": ">=", ">=": "<="}.get(op, op), r, l
+        if _is_zero(r) and atom(l) is not None:
+            z = assign[atom(l)]
+            # unsigned quantity q against 0: q == 0, q != 0, q > 0 (non-zero), q <= 0 (zero), q >= 0 (always), q < 0 (never)
+            return {"==": z, "!=": not z, ">": not z, "<=": z, ">=": True, "<": False}[op]
+    raise _NoTable(T.show(t))
+
+
 def rule_mirror(rep, db):
+    """is_power_of_2 and bit::test as DECISION TABLES over the zero-ness of the quantities they test, whatever the spelling
+    (conditional expression / early return, implicit or explicit comparison with zero, named intermediates, operand order)."""
     seen = set()
     for fn in db.fns("fcppt::math::is_power_of_2"):
         if F.primary_site(fn) in seen:
             continue
         seen.add(F.primary_site(fn))
         u = fn["_unit"]
-        ret = [n for n in F.walk(fn.get("body")) if n.get("k") == "return"]
-        t = T.show(T.norm(u, ret[0]["e"])) if ret else ""
-        t = t.replace(fn["params"][0]["name"], "x")
-        ok = t.replace(" ", "") in ("(x&&!(x&(x-1)))", "(nz(x)&&!nz((x&(x-1))))") or ("&&" in t and "(x & (x - 1))" in t and "!" in t)
-        (rep.ok if ok else rep.fail)("MIRROR", "is_power_of_2", F.primary_site(fn), F.describe(fn), **({"how": "x && !(x & (x-1))"} if ok else {"why": "expression is %s, specification x && !(x & (x - 1))" % t}))
+        t = T.return_term(u, fn)
+        x = ("v", fn["params"][0]["id"], fn["params"][0]["name"])
+
+        def atom(term, x=x):
+            if term == x:
+                return "x"
+            if isinstance(term, tuple) and term and term[0] == "b" and term[1] == "&":
+                for (p, q) in ((term[2], term[3]), (term[3], term[2])):
+                    if p == x and isinstance(q, tuple) and q and q[0] == "b" and q[1] == "-" and q[2] == x and _is_one(q[3]):
+                        return "x&(x-1)"
+            return None
+        why = None
+        if t is None:
+            rep.broken("C06 MIRROR is_power_of_2 at %s: the function is not a single boolean expression / early-return chain" % F.primary_site(fn))
+            continue
+        try:
+            # x == 0 implies x & (x-1) == 0: three feasible rows
+            for (zx, ze) in ((True, True), (False, True), (False, False)):
+                got = _bool_eval(t, atom, {"x": zx, "x&(x-1)": ze})
+                want = (not zx) and ze
+                if got != want:
+                    why = "for x %s 0 and (x & (x - 1)) %s 0 the result is %s, specification x != 0 && (x & (x - 1)) == 0 (expression %s)" % (
+                        "==" if zx else "!=", "==" if ze else "!=", str(got).lower(), T.show(t))
+                    break
+        except _NoTable as e:
+            rep.broken("C06 MIRROR is_power_of_2 at %s: the result depends on `%s`, which is neither x nor x & (x - 1) tested against zero" % (F.primary_site(fn), e))
+            continue
+        (rep.fail if why else rep.ok)("MIRROR", "is_power_of_2", F.primary_site(fn), F.describe(fn), **({"why": why} if why else {"how": "decision table over (x == 0, x & (x-1) == 0): x != 0 && (x & (x-1)) == 0"}))
     seen = set()
     for fn in db.fns("fcppt::bit::test"):
         if F.primary_site(fn) in seen:
             continue
         seen.add(F.primary_site(fn))
         u = fn["_unit"]
-        ret = [n for n in F.walk(fn.get("body")) if n.get("k") == "return"]
-        e = T.unwrap(u, ret[0]["e"]) if ret else None
-        ok = False
-        t = ""
-        if e is not None and e.get("k") == "binop" and e.get("op") == "!=":
-            l = T.unwrap(u, e["l"])
-            r = T.norm(u, e["r"])
-            t = T.show(T.norm(u, e))
-            zero = r == ("k", "0") or (isinstance(r, tuple) and r[0] == "c" and r[1] == "fcppt::literal" and r[3] == (("k", "0"),))
-            ok = l is not None and l.get("k") == "binop" and l.get("op") == "&" and zero and "r_a0" in T.show(T.norm(u, l)) and "r_a1" in T.show(T.norm(u, l))
-        (rep.ok if ok else rep.fail)("MIRROR", "bit::test", F.primary_site(fn), F.describe(fn), **({"how": "(value & mask) != 0"} if ok else {"why": "expression is %s, specification (value & mask) != 0" % t}))
+        t = T.return_term(u, fn)
+        v0 = ("v", fn["params"][0]["id"], fn["params"][0]["name"])
+        m0 = ("v", fn["params"][1]["id"], fn["params"][1]["name"])
+
+        def atom2(term, v0=v0, m0=m0):
+            if isinstance(term, tuple) and term and term[0] == "b" and term[1] == "&":
+                for (p, q) in ((term[2], term[3]), (term[3], term[2])):
+                    if p == v0 and isinstance(q, tuple) and q and q[0] == "c" and str(q[1]).endswith("::get") and q[2] == m0:
+                        return "value&mask"
+            return None
+        if t is None:
+            rep.broken("C06 MIRROR bit::test at %s: the function is not a single boolean expression / early-return chain" % F.primary_site(fn))
+            continue
+        why = None
+        try:
+            for z in (True, False):
+                got = _bool_eval(t, atom2, {"value&mask": z})
+                if got != (not z):
+                    why = "for (value & mask) %s 0 the result is %s, specification (value & mask) != 0 (expression %s)" % ("==" if z else "!=", str(got).lower(), T.show(t))
+                    break
+        except _NoTable as e:
+            rep.broken("C06 MIRROR bit::test at %s: the result depends on `%s`, which is not value & mask.get() tested against zero" % (F.primary_site(fn), e))
+            continue
+        (rep.fail if why else rep.ok)("MIRROR", "bit::test", F.primary_site(fn), F.describe(fn), **({"why": why} if why else {"how": "decision table: (value & mask) != 0"}))
 
 
 # ------------------------------------------------------------------------------------------------
@@ -442,7 +535,7 @@ def main(rep, tier, only):
     rep.rule("ARITH", "in the exact-result integer helpers (ceil_div, ceil_div_signed, div, mod, clamp, diff, is_power_of_2, next_power_of_2, log2, power_of_2) "
                       "no +, -, * has two operands that both depend on the arguments without bound, unless the operands of a subtraction are ordered by "
                       "the enclosing comparison (or a named justification): such an intermediate can wrap / overflow although the exact result fits", floor=1)
-    rep.rule("MIRROR", "is_power_of_2 and bit::test are the specification expressions", floor=2)
+    rep.rule("MIRROR", "is_power_of_2 = (x != 0 && (x & (x - 1)) == 0) and bit::test = ((value & mask) != 0), as decision tables over the zero-ness of the tested quantities", floor=2)
     rep.rule("W-types", "type-level witnesses: overload partition of truncation_check over 64 pairs, accepted / rejected argument types, return types", floor=200)
     have = set(fn["_unit"].file_of(fn["primary"]) for fn in db.functions)
     miss = [f for f in files if f not in have and not f.endswith("truncation_check.hpp") or (f.endswith("/truncation_check.hpp") and f not in have)]
